@@ -1020,7 +1020,17 @@ func (e *Env) call(x *ECall) *CV {
 		if t == nil {
 			efail("unknown type %s", s.S)
 		}
-		return cvOfVal(e.st.load(t, a.V.Ref, IntLit(0)))
+		uv := e.st.load(t, a.V.Ref, IntLit(0))
+		if uv.K == VPtr {
+			// the payload of an interface value of another dynamic type is not a pointer of this type:
+			// unbox then yields nil (so frame clauses that name it denote nothing)
+			is := Eq(a.V.S, IntLit(theV.typeTag(t)))
+			n := *uv
+			n.Ref = Ite(is, uv.Ref, IntLit(0))
+			n.Off = Ite(is, uv.Off, IntLit(0))
+			uv = &n
+		}
+		return cvOfVal(uv)
 	}
 	if kind, w, sg, ok := parseTypeName(x.Fun); ok && len(x.Args) == 1 && kind == "bv" {
 		a := arg(0)
